@@ -284,7 +284,7 @@ pub fn run(ctx: &mut Ctx) -> (&'static str, String, bool) {
                     }
                     wplan.push(WAct::Accept(if *wk == 0 { usize::MAX } else { *wk }));
                 }
-                let base = Session { compressed: *compressed, stream: stream.clone(), read_plan: vec![RAct::Pending], default_read: 0, write_plan: wplan, default_write: 0, drops: BTreeSet::new(), write_after_drop: false, flush_plan: if *fl == 0 { None } else { Some((0..200).map(|i| i % fl != fl - 1).collect()) }, verify_version: false, handshake_after_drop: false, label: format!("{label}-w{wp}x{wk}-f{fl}") };
+                let base = Session { compressed: *compressed, stream: stream.clone(), read_plan: vec![RAct::Pending], default_read: 0, write_plan: wplan, default_write: 0, drops: BTreeSet::new(), write_after_drop: false, flush_plan: if *fl == 0 { None } else { Some((0..200).map(|i| i % fl != fl - 1).collect()) }, verify_version: false, handshake_after_drop: false, user_writes_keepalive: false, label: format!("{label}-w{wp}x{wk}-f{fl}") };
                 let total = run_session(&base).polls;
                 let (frames, _) = ref_frames(stream, *compressed);
                 let kas = frames.iter().filter(|f| is_keepalive_frame(f)).count();
